@@ -5,7 +5,10 @@ fail=0
 for d in seeded/*/; do
   id=$(basename $d); pid=${id%%-*}
   out=$(RUN_SUITE=0 ./eval_seed.sh /verif/${d}patch.diff quick $pid 2>&1)
-  if echo "$out" | grep -q "^== $pid rc=1"; then echo "$id detected"; else echo "$id MISSED"; echo "$out" | tail -5; fail=1; fi
+  expect=$(python3 -c "import json;print(1 if json.load(open('/verif/${d}meta.json'))['detected_by'] else 0)")
+  if echo "$out" | grep -q "^== $pid rc=1"; then echo "$id detected"
+  elif [ "$expect" = "0" ]; then echo "$id not detected (recorded as outside the claimed properties)"
+  else echo "$id MISSED"; echo "$out" | tail -5; fail=1; fi
 done
 git -C /repo status --short | head -3
 exit $fail
